@@ -70,7 +70,23 @@ def run_direct(case, acc):
     cls = {'momentum': MomentumSignal, 'sma': SMASignal, 'vol': VolatilitySignal}[case['kind']]
     sig = cls(pd.Timestamp('2020-01-01', tz='UTC'), U(case['assets']), list(case['lookbacks']))
     streams = {a: [] for a in case['assets']}
+    fork_at = len(case['feed']) // 2 if len(case['feed']) >= 4 and len(case['lookbacks']) % 2 else None
+    fork = fork_streams = None
     for i, (a, p) in enumerate(case['feed']):
+        if i == fork_at:
+            # a deep copy of the signal (what-if analysis on a copy) gets its own future: neither object sees the other's prices
+            import copy
+            fork = copy.deepcopy(sig)
+            fork_streams = {k: list(v) for k, v in streams.items()}
+            for a2, p2 in case['feed'][:6]:
+                fork.append(a2, p2 * 1.5 + 1.0)
+                fork_streams[a2].append(p2 * 1.5 + 1.0)
+            try:
+                sesswl.check_signal_values(case['kind'], fork, fork_streams, case['lookbacks'], acc)
+                sesswl.check_signal_values(case['kind'], sig, streams, case['lookbacks'], acc)
+            except core.Violation as v:
+                raise core.Violation('C16', 'after-deepcopy/' + v.key, 'after the signal was deep-copied and the copy fed six more prices: ' + v.msg, v.witness)
+            acc.count('C16:deep_copied_signals')
         sig.append(a, p)
         streams[a].append(p)
         # the appended asset always; every other asset (cross-talk) every 5th append and at the end
